@@ -67,6 +67,9 @@ package decorator
 //@   requires validDC(c)
 
 //@ func decoratorController.syncParentObject(c, parent) (err)
+//@   requires validRM0(c.customize)
+//@   requires factoryInv(c.customize.dynInformers)
+//@   requires validRMInf(c.customize)
 //@   requires validDC(c) && validDCInformers(c) && parent != nil
 //@   safety C13
 //@   bind call Manager.SyncObject: up, soErr
@@ -158,6 +161,9 @@ package decorator
 //@   ensures [C14] called(GetObject) && getErr == nil && got.GetUID() == controllerRef.UID && dcInterestedIn(c, got) ==> parent == got
 
 //@ func decoratorController.sync(c, key) (err)
+//@   requires validRM0(c.customize)
+//@   requires factoryInv(c.customize.dynInformers)
+//@   requires validRMInf(c.customize)
 //@   requires validDC(c) && validDCInformers(c)
 //@   safety C13
 //@   bind call decoratorController.syncParentObject: spoErr
@@ -166,6 +172,9 @@ package decorator
 //@   ensures [C12] splitErr != nil ==> err != nil
 
 //@ func decoratorController.processNextWorkItem(c) (more)
+//@   requires validRM0(c.customize)
+//@   requires factoryInv(c.customize.dynInformers)
+//@   requires validRMInf(c.customize)
 //@   requires validDC(c) && validDCInformers(c)
 //@   safety C13
 //@   bind call decoratorController.sync: syncErr
